@@ -3168,6 +3168,12 @@ class StateEngine(object):
                                      str(min(end + max_concurrency, len(result))),
                         }
 
+                        """
+                        Restore the parent's retry information, removing any
+                        left behind by the Branch or Iterator state.
+                        """
+                        context_state.pop("RetryCount", None)
+                        context_state.pop("RetryTimeout", None)
                         if retry_count:
                             context_state["RetryCount"] = retry_count
                         if retry_timeout:
@@ -3208,6 +3214,13 @@ class StateEngine(object):
                 """
                 event["data"] = data
 
+                """
+                Restore the parent's retry information, removing any left
+                behind by the failed Branch or Iterator state so that its
+                retries don't count against the Map or Parallel state.
+                """
+                context_state.pop("RetryCount", None)
+                context_state.pop("RetryTimeout", None)
                 if retry_count:
                     context_state["RetryCount"] = retry_count
                 if retry_timeout:
